@@ -800,6 +800,34 @@ impl<'a, W: Write> YamlSerializer<'a, W> {
         Ok(())
     }
 
+    /// If an anchor is pending for an enum variant that carries data, emit it before the
+    /// `Variant:` label: the anchor belongs to the one-entry mapping `Variant: payload`, not to
+    /// the payload. As the value of a key it stays on the key's line (`key: &a1`, the variant
+    /// follows on the next line anyway); otherwise it ends the current line and the label
+    /// continues below it, under the dash if there is one.
+    fn write_anchor_for_variant_node(&mut self) -> Result<()> {
+        if self.in_flow > 0 {
+            return Ok(());
+        }
+        if let Some(id) = self.pending_anchor_id.take() {
+            if self.pending_space_after_colon {
+                self.out.write_str(" &")?;
+                self.write_anchor_name(id)?;
+            } else {
+                if self.at_line_start {
+                    self.write_indent(self.depth)?;
+                }
+                self.out.write_char('&')?;
+                self.write_anchor_name(id)?;
+                self.newline()?;
+                if let Some(d) = self.after_dash_depth {
+                    self.write_indent(d + 1)?;
+                }
+            }
+        }
+        Ok(())
+    }
+
     /// Emit an alias `*name`. Adds a newline in block style.
     /// Used when a previously defined anchor is referenced again.
     #[inline]
@@ -1429,6 +1457,7 @@ impl<'a, 'b, W: Write> Serializer for &'a mut YamlSerializer<'b, W> {
         variant: &'static str,
         value: &T,
     ) -> Result<()> {
+        self.write_anchor_for_variant_node()?;
         // If we are the value of a mapping key, YAML forbids "key: Variant: value" inline.
         // Emit the variant mapping on the next line indented one level. Also, do not insert
         // a space after the colon when the value may itself be a mapping; instead, defer
@@ -1529,6 +1558,7 @@ impl<'a, 'b, W: Write> Serializer for &'a mut YamlSerializer<'b, W> {
         variant: &'static str,
         _len: usize,
     ) -> Result<Self::SerializeTupleVariant> {
+        self.write_anchor_for_variant_node()?;
         // `Variant:` followed by the fields as a sequence in value position - the same layout
         // decisions as for a newtype variant whose payload is a sequence.
         let prev_map_depth = self.current_map_depth;
@@ -1681,6 +1711,7 @@ impl<'a, 'b, W: Write> Serializer for &'a mut YamlSerializer<'b, W> {
         variant: &'static str,
         _len: usize,
     ) -> Result<Self::SerializeStructVariant> {
+        self.write_anchor_for_variant_node()?;
         // If we are the value of a mapping key, YAML forbids keeping a nested mapping
         // on the same line (e.g., "key: Variant:"). Move the variant mapping to the next line
         // indented under the parent mapping's base depth.
